@@ -420,9 +420,13 @@ pub fn random_coding(rng: &mut StdRng) -> Coding {
         };
         let data = if rng.gen_bool(0.5) { pat(n, off) } else { payload(n, off as u64 + 7) };
         off += n;
-        let ext: Vec<u8> = match rng.gen_range(0..4) {
+        // chunk extensions, also with the optional whitespace (BWS = SP / HTAB) the grammar allows around ";"
+        let ext: Vec<u8> = match rng.gen_range(0..8) {
             0 => b";x".to_vec(),
             1 => b";a=b;c".to_vec(),
+            2 => b"\t;x".to_vec(),
+            3 => b" ;a=b".to_vec(),
+            4 => b" \t; x=1".to_vec(),
             _ => vec![],
         };
         // keep the size line within the code's documented sanity limit (20 bytes)
@@ -437,7 +441,8 @@ pub fn random_coding(rng: &mut StdRng) -> Coding {
     let ntr = rng.gen_range(0..3);
     let trs: Vec<&[u8]> = (0..ntr).map(|i| trs_all[i]).collect();
     let tails: [&[u8]; 3] = [b"5\r\nzz", b"HTTP/1.1 200 OK\r\n\r\n", b"0\r\n\r\n"];
-    mk_coding(&chunks, rng.gen_range(0..2), if rng.gen_bool(0.3) { b";x" } else { b"" }, &trs, tails[rng.gen_range(0..3)])
+    let last_exts: [&[u8]; 6] = [b"", b"", b";x", b"\t;fin", b" ;fin=1", b""];
+    mk_coding(&chunks, rng.gen_range(0..2), last_exts[rng.gen_range(0..6)], &trs, tails[rng.gen_range(0..3)])
 }
 
 fn replay_scripts(o: &Opts, t: &mut Tracer) -> (u64, u64) {
@@ -637,7 +642,9 @@ pub fn c07(o: &Opts, t: &mut Tracer) -> Value {
 
 fn c08_length(t: &mut Tracer, api: &str, n: u64, arrive: &[usize], outs: &[usize], body: &[u8], tail: &[u8]) {
     // the same length framing under different response versions / neighbouring header fields
-    let head = match ((n % 1000) as usize + arrive.len() + outs.len()) % 8 {
+    let head = match ((n % 1000) as usize + arrive.len() + outs.len()) % 9 {
+        // a transfer coding other than chunked next to the length: still exactly Content-Length bytes (C06)
+        8 => format!("HTTP/1.1 200 OK\r\nTransfer-Encoding: {}\r\nContent-Length: {}\r\n\r\n", ["gzip", "identity, deflate", "x-custom"][(n % 3) as usize], n),
         // a redirect with a body: the body is read like any other before the flow moves on
         6 => format!("HTTP/1.1 302 Found\r\nLocation: /next\r\nContent-Length: {}\r\n\r\n", n),
         7 => format!("HTTP/1.1 30{} Moved\r\nContent-Length: {}\r\nLocation: http://b.test/x\r\nConnection: keep-alive\r\n\r\n", [1, 3, 7, 8][(n % 4) as usize], n),
@@ -696,7 +703,10 @@ fn c08_length(t: &mut Tracer, api: &str, n: u64, arrive: &[usize], outs: &[usize
             }
         }
     }
+    // reads after the body is complete consume nothing, however often and whatever follows
     ev_read(t, &mut r, &stream, total, 16, &mut st, &stream);
+    ev_read(t, &mut r, &stream, total, 0, &mut st, &stream);
+    ev_read(t, &mut r, &stream, total, 65536, &mut st, &stream);
     if r.ready() {
         if let Some((mc, state)) = r.verdict() {
             t.ev(json!({"ev":"verdict","must_close":mc,"state":state}));
@@ -757,7 +767,10 @@ pub fn c08(o: &Opts, t: &mut Tracer) -> Value {
         (0..=70000).collect()
     };
     ns.sort();
+    let tails: [&[u8]; 4] = [tail, b"\r\nHTTP/1.1 200 OK\r\nContent-Length: 0\r\n\r\n", tail, b"\r\n\r\n\r\nHTTP/1.1 204 No Content\r\n\r\n"];
     for (i, &n) in ns.iter().enumerate() {
+        // what follows the body in the window: the next response, sometimes preceded by stray empty lines
+        let tail: &[u8] = tails[i % 4];
         let nn = n as usize;
         let api = ["flow", "call"][i % 2];
         if n <= 300 {
